@@ -26,6 +26,8 @@ import (
 
 const maxSequence = uint64(math.MaxUint64)
 
+var ErrSequenceOverflow = errors.New("oxia: sequential key operation overflows the sequence number")
+
 func generateUniqueKeyFromSequences(batch WriteBatch, req *proto.PutRequest) (string, error) {
 	if req.PartitionKey == nil {
 		// All the keys need to be in same shard to guarantee atomicity
@@ -61,6 +63,12 @@ func generateUniqueKeyFromSequences(batch WriteBatch, req *proto.PutRequest) (st
 			lastValue = 0
 		}
 
+		if lastValue > maxSequence-delta {
+			// The sum does not fit a sequence number: refuse instead of wrapping around
+			// to a smaller key that could overwrite an existing record
+			return "", ErrSequenceOverflow
+		}
+
 		newKey = fmt.Sprintf("%s-%020d", newKey, lastValue+delta)
 	}
 
@@ -69,7 +77,9 @@ func generateUniqueKeyFromSequences(batch WriteBatch, req *proto.PutRequest) (st
 
 func findCurrentLastKeyInSequence(wb WriteBatch, req *proto.PutRequest) ([]string, error) {
 	prefixKey := req.Key
-	maxKey := fmt.Sprintf("%s-%020d", prefixKey, maxSequence)
+	// Exclusive upper bound that still covers "<prefix>-<maxSequence>" itself and the
+	// keys with further suffixes below it ('.' is the successor of '-')
+	maxKey := fmt.Sprintf("%s-%020d.", prefixKey, maxSequence)
 	lastKeyInSequence, err := wb.FindLower(maxKey)
 	if err != nil && !errors.Is(err, ErrKeyNotFound) {
 		return nil, err
